@@ -18,7 +18,7 @@ import (
 func init() {
 	vc.Register(&vc.Check{ID: "C08", Level: "exploration", Run: run, Replay: replay, QuickSec: 170, ThoroSec: 1800,
 		Rule:   "real Reader.ReadDocument against the independent, genuinely issued chip over a 13-dimensional configuration lattice (access control, password, PACE curve, suite, optional DG subset, CA arrangement, AA key type, large-file size, maxLe, chip Le cap, extended length, issuer trusted, SkipImages). Enumerated completely: every TWO-FACTOR slice (all value pairs of every two dimensions, the rest at the baseline), plus the complete {DG subset x CA x AA x SkipImages} and {file size x maxLe x cap x extended} slices (thorough adds {access x curve x suite x password} and every THREE-factor slice over {first, baseline, middle, last} values). The chip honours Ne: an authentication answer longer than the command's expected length is refused with 6Cxx, never sent in full. Oracle from the chip's own truth: every returned file byte-identical to the chip's; inside the region the transport supports the read succeeds, every supported DG listed in the SOD is present (DG2/DG7 excepted with SkipImages), BAC/PACE reported as the chip completed them, the strongest chip-authentication mechanism by the library's precedence AA > PACE-CAM > CA is reported successful, PA success <=> issuer in the trust store. distinct_nontrivial = distinct configuration vectors read",
-		Assume: []string{"an active-authentication signature of more than 256 bytes (RSA-4096) has to succeed only with extended length and maxLe >= 512 (9303-11: such keys need extended length)", "required region: maxLe >= 128, extended length supported or maxLe <= 256, chip Le cap 0 or >= 128 (a rung of the 256/192/128 ladder), every chunk of every file starts at an offset <= 32767 (the 15-bit READ BINARY offset) and a file needs <= 990 chunks; outside it only 'exact or error' is demanded", "CA after a successful AA / PACE-CAM is skipped by design and not demanded"}})
+		Assume: []string{"an active-authentication signature of more than 256 bytes (RSA-4096) has to succeed only with extended length, maxLe >= 512 and a chip without Le cap (9303-11: such keys need extended length; a cap makes the read fallback lower the session's per-read size to 256 or less)", "required region: maxLe >= 128, extended length supported or maxLe <= 256, chip Le cap 0 or >= 128 (a rung of the 256/192/128 ladder), every chunk of every file starts at an offset <= 32767 (the 15-bit READ BINARY offset) and a file needs <= 990 chunks; outside it only 'exact or error' is demanded", "CA after a successful AA / PACE-CAM is skipped by design and not demanded"}})
 }
 
 type dim struct {
@@ -313,7 +313,9 @@ func judge(b built) result {
 		// a signature of more than 256 bytes (RSA-4096) does not fit a short-length response at all: a terminal has to
 		// be told to use extended length with a per-read size of at least the signature (9303-11: extended length is
 		// required for such keys); outside that the mechanism is not "supported" in the statement's sense
-		if v[6] == 3 && !aa && !(v[10] == 1 && maxLes[v[8]] >= 512) {
+		// (and with a chip that takes reads of that size: a chip Le cap makes ReadFile fall back to 256/192/128, which
+		// is then the session's per-read size)
+		if v[6] == 3 && !aa && !(v[10] == 1 && maxLes[v[8]] >= 512 && caps[v[9]] == 0) {
 			break
 		}
 		if !aa {
